@@ -217,12 +217,19 @@ def run(chk, ctx):
     from .. import tsrules
     for cons, okk, why in tsrules.decimal_sign_rule(ctx):
         chk.ob('C03.S', cons, okk, why, site='pamqp/encode.py::decimal')
+    for cons, okk, why in tsrules.decimal_accept_rule(ctx):
+        chk.ob('C03.S', cons, okk, why,
+               detail={'expected': 'every scale 0..255 and every unscaled '
+                       'value in [-2**31, 2**31 - 1] is accepted'},
+               site='pamqp/encode.py::decimal')
     chk.rule('C03.Z', 'datetime / struct_time values are converted to the '
              'absolute instant they denote (aware as is, naive as UTC, '
              'struct_time by timegm)')
     tsres, _n = tsrules.timestamp_operands(ctx)
     for cons, okk, why in tsres:
         chk.ob('C03.Z', cons, okk, why, site='pamqp/encode.py::timestamp')
+    for cons, okk, why in tsrules.timestamp_decode_rule(ctx):
+        chk.ob('C03.Z', cons, okk, why, site='pamqp/decode.py::timestamp')
     for cons, okk, why in tsrules.table_key_rule(ctx):
         if okk is None:
             chk.undecide('C03.C', cons, why)
